@@ -5,8 +5,13 @@ from common import *
 ADIR = os.path.join(VERIF, 'alg', 'overlay')
 
 
+EDIR = os.path.join(VERIF, 'alg', 'overlay_e')
+
+
 def overlay_exe(variant='flat'):
     """build (or reuse, keyed by tree hash + overlay sources) the overlay binary"""
+    if variant == 'E':
+        return overlay_exe_e()
     key = '%s-%s-%s' % (variant, tree_hash(), dir_hash(ADIR))
     exe = os.path.join(workdir('alg'), 'alg-' + key)
     if os.path.exists(exe):
@@ -71,3 +76,54 @@ def run_task(exe, family, only='', timeout=1200):
             leaves.append(json.loads(ln))
     os.remove(out)
     return leaves
+
+
+def overlay_exe_e():
+    """variant E: the real source with Fq12 redirected to the exponent-tracking stand-in (Fq stays the real type)"""
+    key = 'E-%s-%s' % (tree_hash(), dir_hash(EDIR))
+    exe = os.path.join(workdir('alg'), 'alg-' + key)
+    if os.path.exists(exe):
+        return exe, 'cached'
+    with Lock('alg-build-E'):
+        if os.path.exists(exe):
+            return exe, 'cached'
+        scratch = tempfile.mkdtemp(prefix='sm9verif.', dir=os.environ.get('TMPDIR', '/var/tmp'))
+        try:
+            shutil.copytree(os.path.join(REPO, 'src'), os.path.join(scratch, 'src'))
+            for f in ('Cargo.toml', 'Cargo.lock', 'README.md'):
+                if os.path.exists(os.path.join(REPO, f)):
+                    shutil.copy(os.path.join(REPO, f), scratch)
+            p = os.path.join(scratch, 'src', 'fields.rs')
+            s = open(p).read()
+            a1, a2 = 'mod fq12;\n', 'pub use self::fq12::Fq12;\n'
+            if s.count(a1) != 1 or s.count(a2) != 1:
+                return None, 'overlay-E anchors not found in src/fields.rs'
+            s = s.replace(a1, 'mod fq12;\npub mod symfq12;\n').replace(a2, 'pub use self::symfq12::Fq12;\n')
+            open(p, 'w').write(s)
+            p = os.path.join(scratch, 'src', 'lib.rs')
+            s = open(p).read()
+            s = re.sub(r'#\[cfg\(john_yu_sm9_core_verif\)\]\s*\npub mod verif_hooks;\n', 'pub mod verif_alg_e;\n', s)
+            if 'pub mod verif_alg_e;' not in s:
+                return None, 'hook anchor not found in src/lib.rs'
+            open(p, 'w').write(s)
+            vh = os.path.join(scratch, 'src', 'verif_hooks.rs')
+            if os.path.exists(vh):
+                os.remove(vh)
+            shutil.copy(os.path.join(EDIR, 'symfq12.rs'), os.path.join(scratch, 'src', 'fields', 'symfq12.rs'))
+            shutil.copy(os.path.join(EDIR, 'verif_alg_e.rs'), os.path.join(scratch, 'src', 'verif_alg_e.rs'))
+            os.makedirs(os.path.join(scratch, 'src', 'bin'), exist_ok=True)
+            shutil.copy(os.path.join(EDIR, 'alg_main_e.rs'), os.path.join(scratch, 'src', 'bin', 'alg.rs'))
+            p = os.path.join(scratch, 'Cargo.toml')
+            s = open(p).read()
+            s = re.sub(r'\[\[bench\]\][^\[]*', '', s)
+            open(p, 'w').write(s)
+            tdir = os.path.join(WORK, 'alg-target-E')
+            log = os.path.join(workdir('logs'), 'alg-build-E.log')
+            rc, secs = run(['cargo', 'build', '--release', '--offline', '--bin', 'alg', '--target-dir', tdir], log, timeout=1800, cwd=scratch)
+            built = os.path.join(tdir, 'release', 'alg')
+            if rc != 0 or not os.path.exists(built):
+                return None, 'overlay-E build failed, see ' + log
+            shutil.copy(built, exe)
+            return exe, 'built in %.0fs' % secs
+        finally:
+            shutil.rmtree(scratch, ignore_errors=True)
